@@ -167,18 +167,9 @@ def run_benign(verbose=True, only=None, shard=None):
                 out.append({"benign": m["name"], "status": "skipped", "why": "does not compile: " + str(e)[-200:]})
                 continue
             alarms = []
+            _FACTS_CACHED[d] = True
             for pid in pids:
-                mod = importlib.import_module("rules." + pid)
-                for f in facts:
-                    if f["crate"] != "feoxdb":
-                        continue
-                    ctx = Ctx(Program(f), pid, "lib")
-                    try:
-                        mod.check(ctx)
-                    except Exception:
-                        import traceback
-                        ctx.fail("engine", "internal", "-", traceback.format_exc()[-300:])
-                    alarms += [f2.key() for f2 in ctx.findings]
+                alarms += [f2.key() for f2 in run_rules(pid, d)]
             out.append({"benign": m["name"], "status": "quiet" if not alarms else "FALSE-ALARM", "alarms": alarms[:8]})
         finally:
             th = extract.tree_hash(d)
